@@ -823,6 +823,15 @@ def softabs_inputs(ctx, rng):
     for gap in (1e-3, 1e-4, 1e-5, 1e-6, 1e-7, 1e-8, 1e-9, 1e-10, 1e-12, 1e-14):
         out.append(("near-repeat", _HAD4 @ np.diag([1.0, 1.0 + gap, 3.0, -2.0]) @ _HAD4.T, 1.0))
         out.append(("near-repeat", np.diag([0.5, 0.5 + gap, 2.0]), 1.5))
+    # exactly zero and tiny eigenvalues of the unregularised array (removable singularity of x coth(c x))
+    for c in (0.5, 1.0, 2.25):
+        out.append(("zero-eig", np.diag([0.0, 2.0]), c))
+        out.append(("zero-eig", np.array([[1.0, 1.0], [1.0, 1.0]]), c))
+        out.append(("zero-eig", np.diag([0.0, 0.0, -1.5]), c))
+        out.append(("zero-eig", np.zeros((1, 1)), c))
+        for tiny in (1e-3, 1e-5, 1e-7, 1e-9, -1e-6):
+            out.append(("tiny-eig", np.diag([tiny, 1.25, -0.75]), c))
+            out.append(("tiny-eig", _HAD4 @ np.diag([tiny, -tiny, 2.0, -1.0]) @ _HAD4.T, c))
     # mathematically repeated eigenvalues that eigh returns a few ulps apart
     out.append(("ulp", np.array([[2.0, 1, 1], [1, 2, 1], [1, 1, 2]]), 1.0))
     out.append(("ulp", np.eye(3) + 0.1 * np.ones((3, 3)), 1.0))
@@ -922,10 +931,6 @@ def run(ctx: common.Ctx):
                 with np.errstate(all="ignore"):
                     m = _with_timeout(lambda r=rec: build(r))
         except Exception as e:  # noqa: BLE001
-            if case["family"] == "block-softabs" and isinstance(e, ValueError) and "Eigenvalues" in str(e):
-                # an exactly zero eigenvalue of the SoftAbs block (softabs(0) = 0/0): rejected loudly, counted
-                ctx.count("softabs_rejected:block:ValueError")
-                continue
             ctx.disagreement(f"constructing {rec['cls']} raised {type(e).__name__}: {e}", {"case": case})
             continue
         from mici import matrices as mm
@@ -1006,14 +1011,24 @@ def _count_options(ctx, rec):
 def run_softabs(ctx, rng):
     from mici import matrices as mm
 
-    # an exactly zero eigenvalue is rejected loudly (softabs(0) = 0/0): counted, not a gradient issue
+    # an exactly zero eigenvalue of the unregularised array is a regular point: x / tanh(coeff x) has a removable
+    # singularity at 0 (value 1/coeff, derivative 0); the matrix and both gradients must be finite there
     try:
         with warnings.catch_warnings():
             warnings.simplefilter("ignore")
-            mm.SoftAbsRegularizedPositiveDefiniteMatrix(np.zeros((2, 2)), 1.0)
+            z = mm.SoftAbsRegularizedPositiveDefiniteMatrix(np.zeros((2, 2)), 2.0)
+            ok = np.allclose(np.array(z.array), 0.5 * np.eye(2)) and np.all(np.isfinite(z.grad_log_abs_det)) and np.all(
+                np.isfinite(z.grad_quadratic_form_inv(np.array([1.0, -2.0]))))
+        if not ok:
+            raise ValueError("non-finite or wrong values")  # noqa: TRY301
         ctx.count("softabs_zero_eigenvalue_accepted")
     except Exception as e:  # noqa: BLE001
-        ctx.count(f"softabs_zero_eigenvalue_rejected:{type(e).__name__}")
+        ctx.violation("SoftAbsRegularizedPositiveDefiniteMatrix zero eigenvalue",
+                      f"SoftAbsRegularizedPositiveDefiniteMatrix(zeros((2, 2)), 2.0) should be I/2 with finite gradients "
+                      f"(softabs(0) = 1/coeff): {type(e).__name__}: {e}",
+                      {"case": {"family": "softabs:zero", "recipe": {"cls": "SoftAbsRegularizedPositiveDefiniteMatrix",
+                                                                        "array": [[0.0, 0.0], [0.0, 0.0]], "coeff": 2.0},
+                                "v": [1.0, -2.0], "delta": [[0.25, 0.5], [0.5, -0.125]]}})
     for tag, h, coeff in softabs_inputs(ctx, rng):
         n = h.shape[0]
         rec = {"cls": "SoftAbsRegularizedPositiveDefiniteMatrix", "array": h.tolist(), "coeff": coeff}
@@ -1024,6 +1039,9 @@ def run_softabs(ctx, rng):
                 m = build(rec)
         except Exception as e:  # noqa: BLE001
             ctx.count(f"softabs_rejected:{tag}:{type(e).__name__}")
+            ctx.violation("SoftAbsRegularizedPositiveDefiniteMatrix construction raised",
+                          f"constructing SoftAbsRegularizedPositiveDefiniteMatrix for a finite symmetric array raised "
+                          f"{type(e).__name__}: {e} [case {tag}]", {"case": {**case, "delta": np.zeros((n, n)).tolist()}})
             continue
         sp = spec_of(m, rec)
         case["delta"] = s_tolist(gen_delta(rng, sp))
